@@ -163,6 +163,30 @@ def assert_repo_import():
     return here
 
 
+def _start_stall_watchdog(ctx, outpath, limit):
+    """A workload thread stuck in a blocking call (a lock the change under test never releases) would otherwise only be
+    ended by the driver's wall-clock watchdog, and everything the shard had observed would be lost.  This thread flushes
+    the observations gathered so far once the evaluation counter has not moved for `limit` seconds, and ends the process:
+    recorded violations still count, and without any the shard reports itself inconclusive (never 'held')."""
+    import threading
+
+    def loop():
+        last, since = ctx.evaluations, time.time()
+        while True:
+            time.sleep(5)
+            if ctx.evaluations != last:
+                last, since = ctx.evaluations, time.time()
+            elif time.time() - since > limit:
+                ctx.inconclusive_because('shard %d stalled: no evaluation for %d s (blocked call); partial observations flushed' % (ctx.shard, limit))
+                try:
+                    with open(outpath, 'w') as f:
+                        json.dump(ctx.dump(), f)
+                finally:
+                    os._exit(0)
+    t = threading.Thread(target=loop, name='vf-stall-watchdog', daemon=True)
+    t.start()
+
+
 INTERNAL_ERRORS = (AssertionError, IndexError, KeyError, AttributeError, UnboundLocalError, NameError, ZeroDivisionError,
                    RecursionError, RuntimeError)
 
@@ -184,6 +208,7 @@ def worker_main(argv):
     assert_repo_import()
     mod = importlib.import_module('vf.checks.' + a.prop.lower())
     ctx = Ctx(a.prop, a.tier, a.seed, a.shard, a.nshards, a.budget)
+    _start_stall_watchdog(ctx, a.out, 300 if a.tier == 'quick' else 900)
     try:
         if a.replay:
             with open(a.replay) as f:
